@@ -50,7 +50,8 @@ ErrorLine ==
        THEN Begin /\ fdAnswered' = TRUE /\ UNCHANGED okSeen      \* accepted, but no descriptor passing
        ELSE TryNext /\ UNCHANGED <<okSeen, fdAnswered>>
 
-Ok(guid) ==                         \* guid \in {"valid", "nothex", "missing"}
+BadGuids == {"nothex", "missing", "spaced", "odd", "tabbed"}   \* anything that is not one run of hex digit pairs
+Ok(guid) ==                         \* guid \in {"valid"} \cup BadGuids
     /\ Live
     /\ IF guid # "valid"
        THEN phase' = "closed" /\ out' = <<"close">> /\ UNCHANGED <<todo, cur, offered, okSeen, fdAnswered>>
@@ -87,7 +88,7 @@ AfterClose(kind) ==
 Next ==
     \/ (\E k \in {"ok", "rejected"} : AfterClose(k))
     \/ Rejected \/ ErrorLine \/ Agree
-    \/ \E g \in {"valid", "nothex", "missing"} : Ok(g)
+    \/ \E g \in {"valid"} \cup BadGuids : Ok(g)
     \/ \E k \in {"challenge", "garbage"} : Data(k)
     \/ \E k \in {"word", "empty", "nontext", "begin"} : Unknown(k)
 
@@ -108,7 +109,7 @@ NoStall == [][Live => out' # <<>>]_vars
 (* it gives up only when nothing is left to offer or the server left the protocol *)
 ClosedForReason == [][phase' = "closed" /\ phase # "closed" =>
                         \/ todo = <<>>
-                        \/ \E g \in {"nothex", "missing"} : Ok(g)
+                        \/ \E g \in BadGuids : Ok(g)
                         \/ \E k \in {"word", "empty", "nontext", "begin"} : Unknown(k)
                         \/ Agree]_vars
 =============================================================================
